@@ -505,23 +505,29 @@ def ps_monitor(prop, m, trace):
 
 PROPS["C06"] = dict(
     lean_targets=["BB.Props.C06"],
-    theorems=[],
+    theorems=["BB.Props.C06.sends_serialised", "BB.Props.C06.standing_subscribers_are_owed", "BB.Props.C06.send_phase_result",
+              "BB.Props.C06.no_second_copy_in_a_round", "BB.Props.C06.pongs_match_receptions", "BB.Props.C06.send_returns_after_all_acks",
+              "BB.Props.C06.no_subscription_during_send_phase", "BB.Props.C06.send_zero_when_nobody", "BB.PubSub.pinv12_reach"],
     corr=[dict(family="pubsub", quick=150, thorough=6000, monitor=ps_monitor, no_shrink=True,
                nontrivial=has("absorb", "unsub_during_send_phase", "deliver_iter", "unsub_between_ping_add_and_cas", "cas_failed_by_racing_unsubscribe", "send_returned_zero_after_lock"),
                rule=_PS_RULE + "; non-trivial = an unsubscribe absorbing its copy during the send phase, iterator deliveries, a Send that finds everybody gone after locking")],
     assumptions=["sync.Mutex / RWMutex / Cond / atomics semantics modelled; TryRLock may fail whenever a Send holds or awaits sendingMu (spurious failures only add spinning)",
                  "the embedded caster's own RWMutex is not modelled (only the holder of sendMu ever takes it)",
                  "subscribers follow the documented contract (receive then Wait; unsubscribe only between rounds; no receive while unsubscribing)"],
-    open_statements=[],
+    open_statements=["'each subscription sees a contiguous run of the global order' is not a Lean theorem (the trace acceptance checks every received value against the "
+                     "model's current Send); 'no message twice' is proved per round (no_second_copy_in_a_round), not as a statement about whole histories"],
 )
 PROPS["C07"] = dict(
     lean_targets=["BB.Props.C07"],
-    theorems=[],
+    theorems=["BB.Props.C07.no_invariant_panic", "BB.Props.C07.subscriber_count_exact", "BB.Props.C07.quiescent_counts",
+              "BB.Props.C07.one_send_at_a_time", "BB.Props.C07.no_membership_section_during_send", "BB.Props.C07.sends_left_are_all_owed",
+              "BB.Props.C07.no_deadlock", "BB.PubSub.pinv12_reach", "BB.LockOrder.no_wait_cycle"],
     corr=[dict(family="pubsub", quick=150, thorough=6000, monitor=ps_monitor, no_shrink=True,
                nontrivial=has("absorb", "unsub_during_send_phase", "unsub_try_failed", "unsub_spin", "unsub_between_ping_add_and_cas", "cas_failed_by_racing_unsubscribe"),
                rule=_PS_RULE + "; non-trivial = unsubscribes that fail TryRLock (spin, see the Send in progress, route the decrement through the caster)")],
     assumptions=PROPS["C06"]["assumptions"] if "C06" in PROPS else [],
-    open_statements=[],
+    open_statements=["termination as a leadsTo theorem under fairness (proved: no_deadlock = while any call is pending a step other than the unsubscribe spin is enabled); "
+                     "the spin loop of a failed TryRLock terminating needs the scheduler to run the Send it waits for"],
 )
 
 with_conform(PROPS["C01"], "Buffer")
